@@ -98,6 +98,9 @@ func (apifuzz) Generate(rng *Rand, prop, tier string) *Script {
 			if rng.Bool(60) {
 				op.A, op.B = 1, 8 // POST /v1/replicas/1?action=...
 			}
+			if rng.Bool(15) {
+				op.F, op.E = true, int64(rng.Intn(600)) // an overlapping second request E microseconds later
+			}
 			s.Ops = append(s.Ops, op)
 			if rng.Bool(25) {
 				// the same body (same names) sent to another action straight afterwards: state that one
@@ -141,6 +144,9 @@ func (apifuzz) Generate(rng *Rand, prop, tier string) *Script {
 			if rng.Bool(10) {
 				op.A, op.B, op.C = 3, 4, 6 // DELETE /v1/volumes/VOL?action=deleteSnapshot
 			}
+			if rng.Bool(15) {
+				op.F, op.E = true, int64(rng.Intn(600))
+			}
 			s.Ops = append(s.Ops, op)
 		}
 	}
@@ -162,6 +168,7 @@ type fzRun struct {
 	c      *cluster
 	adminN *simrt.Node
 	ended  bool
+	shadow *fzShadow // armed: the next request gets an overlapping companion
 }
 
 func (fr *fzRun) viol(clause, format string, a ...interface{}) {
@@ -189,6 +196,12 @@ func (apifuzz) Run(t *testing.T, s *Script) *Result {
 	return res
 }
 
+type fzShadow struct {
+	delay  time.Duration
+	get    bool
+	getURL string
+}
+
 type fzResp struct {
 	code int
 	err  error
@@ -200,6 +213,42 @@ type fzResp struct {
 func (fr *fzRun) send(method, url, body string) *fzResp {
 	r := &fzResp{}
 	done := false
+	// a second request, overlapping this one (armed by the script): the same request again, or a
+	// GET of the resource; both must be answered
+	sdone := true
+	var sr *fzResp
+	if sh := fr.shadow; sh != nil {
+		fr.shadow = nil
+		sdone = false
+		sr = &fzResp{}
+		sm, su, sb := method, url, body
+		if sh.get {
+			sm, su, sb = "GET", sh.getURL, ""
+		}
+		fr.res.stat("overlapping_requests", 1)
+		fr.w.After(sh.delay, fmt.Sprintf("shadow-%d-%d", fr.step, fr.w.Counter("fzshadow")), func() {
+			simrt.GoNamed(fr.adminN, fmt.Sprintf("admin/shadow%d-%d", fr.step, fr.w.Counter("fzshadowg")), func() {
+				defer func() { sdone = true; fr.w.Kick() }()
+				req, err := http.NewRequest(sm, su, strings.NewReader(sb))
+				if err != nil {
+					sr.err = err
+					return
+				}
+				if sb != "" {
+					req.Header.Set("Content-Type", "application/json")
+				}
+				cl := &http.Client{Timeout: 300 * time.Second}
+				resp, err := cl.Do(req)
+				if err != nil {
+					sr.err = err
+					return
+				}
+				sr.code = resp.StatusCode
+				io.ReadAll(resp.Body)
+				resp.Body.Close()
+			})
+		})
+	}
 	simrt.GoNamed(fr.adminN, fmt.Sprintf("admin/req%d-%d", fr.step, fr.w.Counter("fzreq")), func() {
 		req, err := http.NewRequest(method, url, strings.NewReader(body))
 		if err != nil {
@@ -227,8 +276,11 @@ func (fr *fzRun) send(method, url, body string) *fzResp {
 	if fr.c != nil {
 		onQ = fr.c.reapExited
 	}
-	if !fr.w.Pump(func() bool { return done }, fr.w.Now()+400*time.Second, onQ) {
+	if !fr.w.Pump(func() bool { return done && sdone }, fr.w.Now()+400*time.Second, onQ) {
 		r.hung = true
+	}
+	if sr != nil && sr.err != nil && (strings.Contains(sr.err.Error(), "Timeout") || strings.Contains(sr.err.Error(), "deadline exceeded")) {
+		r.hung = true // the overlapping request was never answered
 	}
 	if r.err != nil && strings.Contains(r.err.Error(), "Timeout") || r.err != nil && strings.Contains(r.err.Error(), "deadline exceeded") {
 		r.hung = true
@@ -341,6 +393,9 @@ func (fr *fzRun) runReplica() {
 			st, _ := fr.srv.Status()
 			desc := fmt.Sprintf("replica state %s: %s %s%s body=%s", st, method, path, q, bname)
 			pb, fb := len(w.Panics), len(w.Fatals)
+			if op.F {
+				fr.shadow = &fzShadow{delay: time.Duration(op.E) * time.Microsecond, get: op.E%2 == 0, getURL: "http://10.0.0.2:9502/v1/replicas/1"}
+			}
 			r := fr.send(method, "http://10.0.0.2:9502"+path+q, body)
 			fr.res.stat("replica_requests", 1)
 			fr.shape = append(fr.shape, fmt.Sprintf("%s:%s:%s:%d", st, method, action, r.code/100))
@@ -458,6 +513,9 @@ func (fr *fzRun) runController() {
 			}
 			desc := fmt.Sprintf("controller (%d/%d replicas): %s %s%s body=%s", nrep, rf, method, path, q, bname)
 			pb, fb := len(w.Panics), len(w.Fatals)
+			if op.F {
+				fr.shadow = &fzShadow{delay: time.Duration(op.E) * time.Microsecond, get: op.E%2 == 0, getURL: "http://10.0.0.1:9501/v1/replicas"}
+			}
 			r := fr.send(method, "http://10.0.0.1:9501"+path+q, body)
 			fr.res.stat("controller_requests", 1)
 			fr.shape = append(fr.shape, fmt.Sprintf("%d:%s:%s:%s:%d", nrep, method, strings.Split(path, "/")[len(strings.Split(path, "/"))-1][:min(4, len(strings.Split(path, "/")[len(strings.Split(path, "/"))-1]))], action, r.code/100))
